@@ -107,10 +107,15 @@ CHECKS = {
         text="Bounded-exhaustive exploration: 3 600 renders (thorough 32 400): template project shapes (re-exports incl. of a function whose default names a sibling, duplicate definitions, nested classes, consumers with cross-references, subclasses showing inherited docstrings with same-page links) x 9 privacy rule lists x theme; in every output directory each relative href/src resolves to a written file and its fragment to an id/name in it, url fields of the search documents likewise, and every visible object has its page/anchor. The rendering itself carries no symbolic values: this is exploration of bounded inputs, labelled as such.",
         note="Trusted: CrossHair's exhaustion verdict over the choice variables; html.parser; lib/templates.py and lib/crawl.py. File-system side effects unblocked (mkdtemp only).",
     ),
+    "C01": dict(
+        level="exploration", design="DESIGN.md §8.6 (narrow claim; §4 explains why the full property is out of reach)",
+        technique="CrossHair (z3) enumerates packages assembled from a menu of awkward module files and certifies exhaustion; the real analysis, rendering and exit-status code run on each",
+        text="Narrow claim, bounded-exhaustive exploration: for every package of 2 (thorough 3) modules drawn from a menu of 30 module files - 5 that do not parse (syntax error, NUL byte, inconsistent indentation, undecodable bytes, unknown coding), un-evaluable __all__/__docformat__ values, every statement form the builder special-cases (decorators, metaclass keywords, match, walrus/star targets, type aliases, async forms, except*, overloads, duplicates, bad fields, surrogates and control characters in constants and docstrings, empty file) - System.addPackage + process(), the TemplateWriter, the inventory writer and driver.main's exit status computation complete without an uncaught exception, every file is listed as a module, every unparsable file is reported by a message naming it, a healthy sibling is fully documented, and the exit status is 0, 2 or 3. Nothing is claimed for inputs outside the menu; hangs are not decided.",
+        note="Trusted: CrossHair's exhaustion verdict over the choice variables; the menu in harness/c01_total.py. File-system side effects unblocked (mkdtemp only).",
+    ),
 }
 
 NOT_APPLICABLE = {
-    "C01": "totality over all source trees lives behind C parsers (ast.parse), docutils, twisted and ~4000 lines of regex-driven parsers; CrossHair realises symbolic values at the first C boundary and does not confirm `re` on symbolic str; no bounded kernel implies totality of a run (its kernels are decided under C08, C16, C19)",
     "C09": "text conservation is a property of regex tokenisers, napoleon line munging and docutils transforms on unbounded structured strings; the 3-5 symbolic characters CrossHair can carry through regex code say nothing about paragraphs, lists and literal blocks",
     "C10": "escaping/well-formedness is done by twisted.web flattening, docutils' HTML writer and expat (third party, partly C); no pydoctor kernel carries the property, so there is nothing to encode",
 }
